@@ -293,6 +293,9 @@ func runC09(p *Prog, r *Report) {
 		}
 	}
 
+	r.Describe("C09.6/route-recorded", "replies through a device chain find their way back: the cooked contexts keep a private copy of the routing header, the raw receivers record the arrival pipe id (shared with C05)")
+	backtraceCopyRule(p, r, "C09.6/route-recorded")
+
 	// ---- C09.5 Device
 	R = "C09.5/device"
 	r.Describe(R, "Device validates (non-nil, protocols are each other's peer, both raw) before spawning the forwarders; forwarder passes the received message unmodified and exits on either error; second direction only when s1 != s2")
